@@ -14,6 +14,7 @@ import (
 	"verif/internal/batch"
 	"verif/internal/evid"
 	"verif/internal/jsonx"
+	"verif/internal/sem"
 	"verif/internal/sg"
 )
 
@@ -92,7 +93,7 @@ func RandArgs(r *sg.Rng, root *sg.Schema) []string {
 		}
 	}
 	if r.Chance(0.3) {
-		a = append(a, "--capitalization", sg.PickOf(r, []string{"ID", "URL", "ID,URL,HTTP", "Alpha", "CASE"}))
+		a = append(a, "--capitalization", sg.PickOf(r, []string{"ID", "URL", "ID,URL,HTTP", "Alpha", "CASE", "PROPERTIES", "ADDITIONAL,PLAIN", "JSON,YAML,Elem", "VALUE", "unmarshal"}))
 	}
 	if r.Chance(0.3) {
 		a = append(a, "--struct-name-from-title")
@@ -283,7 +284,32 @@ func illTypedDefault(x *sg.Schema) bool {
 		}
 		return it == "array" || it == "object" || x.Items.Format != ""
 	case "object":
-		return true
+		// a default for an inline object is a well-formed struct literal when every property of the object is
+		// non-pointer (required or defaulted itself), the default names only declared keys and gives them scalars
+		// of the declared type; anything else is the recorded finding
+		if len(x.Props) == 0 || x.AddProps != nil || x.AddPropsBool != nil {
+			return true
+		}
+		dv, isObj := x.Default.(jsonx.Obj)
+		if !isObj {
+			return true
+		}
+		for _, p := range x.Props {
+			if !(x.IsRequired(p.Name) || p.S.HasDefault) {
+				return true
+			}
+		}
+		for _, kv := range dv {
+			p := x.Prop(kv.K)
+			if p == nil || p.Ref != "" || p.HasEnum || len(p.Types) != 1 {
+				return true
+			}
+			ok := map[string]string{"string": "string", "integer": "number", "number": "number", "boolean": "boolean"}[p.Types[0]]
+			if ok == "" || jsonx.Kind(kv.V) != ok {
+				return true
+			}
+		}
+		return false
 	}
 	return false
 }
@@ -539,6 +565,7 @@ type c01Case struct {
 	args []string
 	prog *batch.Program
 	tag  string
+	sc   *sem.Case // a multi-file / multi-package invocation (the layout is the engine's)
 }
 
 func c01Diag(p *batch.Program) string {
@@ -550,6 +577,15 @@ func c01Diag(p *batch.Program) string {
 	}
 	if p.Src == nil {
 		return "exit 0 but no output file"
+	}
+	for _, sb := range p.Subs {
+		// further packages of the same run: each of their files is judged like the main one
+		if sb.Src == nil {
+			return "exit 0 but no output file for package " + sb.Name
+		}
+		if sb.Report != nil && !sb.Report.OK() {
+			return sb.Name + "/" + sb.Report.Summary()
+		}
 	}
 	if p.Report != nil && !p.Report.OK() {
 		return p.Report.Summary()
@@ -653,6 +689,11 @@ func c01(ctx *Ctx) (*Outcome, error) {
 			cases = append(cases, &c01Case{root: sc.Root, args: RandArgs(r, sc.Root), tag: "clean"})
 			continue
 		}
+		if i%25 == 13 {
+			oc := objectDefaultCase(i / 25)
+			cases = append(cases, &c01Case{root: oc.Root, args: RandArgs(r, oc.Root), tag: "clean"})
+			continue
+		}
 		if i%25 == 10 {
 			sc := suffixLookalikeCase(i / 25)
 			cases = append(cases, &c01Case{root: sc.Root, args: without(RandArgs(r, sc.Root), "--capitalization", true), tag: "clean"})
@@ -691,6 +732,16 @@ func c01(ctx *Ctx) (*Outcome, error) {
 			addExtension(r, root)
 		}
 		cases = append(cases, &c01Case{root: root, args: RandArgs(r, root), tag: "clean"})
+	}
+	// enumerated: root and library with same-named definitions, one package / separate packages of one run
+	for i := 0; i < 40; i++ {
+		xc := crossPackageCase(i)
+		cases = append(cases, &c01Case{root: xc.Root, args: xc.Args, tag: "clean", sc: xc})
+	}
+	// enumerated: three contenders of every combination of kinds for one Go type name
+	for i := 0; i < 128; i++ {
+		kc := collisionKindsCase(i)
+		cases = append(cases, &c01Case{root: kc.Root, args: [][]string{nil, {"--only-models"}, {"--tags", "json"}, {"--struct-name-from-title"}}[i%4], tag: "clean"})
 	}
 	// enumerated: a custom type from every package the generated code may import itself (and from foreign ones) x the
 	// options that decide which of those imports the generator adds on its own
@@ -751,7 +802,11 @@ func c01(ctx *Ctx) (*Outcome, error) {
 	}
 	var progs []*batch.Program
 	for i, c := range cases {
-		c.prog = mkProgram(fmt.Sprintf("p%06d", i), c.root, c.args)
+		if c.sc != nil {
+			c.prog = sem.NewProgram(ctx.Env, c.sc, fmt.Sprintf("p%06d", i))
+		} else {
+			c.prog = mkProgram(fmt.Sprintf("p%06d", i), c.root, c.args)
+		}
 		c.prog.Meta = c
 		progs = append(progs, c.prog)
 	}
